@@ -36,8 +36,9 @@ inline std::atomic<Callback> callback{nullptr};
 inline std::atomic<uint64_t> zobrist_seed{0};
 
 // non-zero (with zobrist_seed): only these bits of every Zobrist key carry
-// entropy, the other bits are zero in all keys
+// entropy, the other bits are the same in all keys (taken from zobrist_fill)
 inline std::atomic<uint64_t> zobrist_mask{0};
+inline std::atomic<uint64_t> zobrist_fill{0};
 
 // true: the search reads virtual_elapsed_ms instead of the wall clock
 inline std::atomic<bool> virtual_clock{false};
